@@ -45,9 +45,19 @@ fn apply_fixes(src: &str, fixes: &[Autofix]) -> String {
     fixes.sort_by_key(|b| std::cmp::Reverse(b.position.start_offset));
 
     let mut result = src.to_owned();
+    // Everything from this offset onwards has already been edited.
+    let mut edited_from = usize::MAX;
     for fix in fixes {
         let start = fix.position.start_offset;
         let end = fix.position.end_offset;
+
+        // Skip fixes that overlap one we've already applied: their
+        // offsets are stale. Running --fix again offers them afresh.
+        if end > edited_from {
+            continue;
+        }
+        edited_from = start;
+
         result = format!("{}{}{}", &result[..start], fix.new_text, &result[end..]);
     }
     result
